@@ -35,6 +35,10 @@ type RespDecl struct {
 	Schema      *spec.Schema `json:"schema,omitempty"` // JSON body schema (nil: no JSON body)
 	Raw         bool         `json:"raw,omitempty"`
 	Headers     []RespHeader `json:"headers,omitempty"`
+	// AltTypes: the other media types the response documents. ContentType/Schema describe the JSON
+	// entry when there is one; an implementation may represent the response by any ONE documented
+	// media type, but Content-Type and body must belong to the same entry.
+	AltTypes []string `json:"altTypes,omitempty"`
 }
 
 type RespOp struct {
@@ -147,7 +151,7 @@ func ctorArgSets(p *Pkg, pl *RespPayload, c Ctor, codes []int, rawBody string) [
 		case it.Kind() == reflect.Interface && reflect.TypeOf((*trackedBody)(nil)).Implements(it):
 			doms[i] = []reflect.Value{reflect.Zero(it)} // filled per call (a reader can be read once)
 		default:
-			e := &valEnum{p: p, cap: 50, strings: []string{"a", "a b", "x,y", "é"}, discProp: pl.DiscProp, variantKeys: pl.VariantKeys}
+			e := &valEnum{p: p, cap: 50, strings: []string{"a", "", "a b", "x,y", "é"}, discProp: pl.DiscProp, variantKeys: pl.VariantKeys}
 			if it.Kind() != reflect.String && !(it.Kind() == reflect.Slice && it.Elem().Kind() == reflect.String) && !isWrapper(it) {
 				e.strings = nil
 			}
@@ -581,6 +585,31 @@ func c02Judge(pl *RespPayload, ro RespOp, c Ctor, args []reflect.Value, val refl
 	}
 	hdrs := rec.HeaderAtWH
 	ct := hdrs.Get("Content-Type")
+	if len(rd.AltTypes) > 0 && rd.Schema != nil && val.Kind() == reflect.Struct {
+		// several media types documented: a response value that carries a raw body was generated for one
+		// of the non-JSON entries; a typed body belongs to the JSON entry
+		if b := val.FieldByName("Body"); b.IsValid() && b.Kind() == reflect.Interface {
+			local := *rd
+			local.Schema, local.Raw = nil, true
+			local.ContentType = rd.AltTypes[0]
+			for _, a := range rd.AltTypes {
+				if a == ct {
+					local.ContentType = a
+				}
+			}
+			rd = &local
+		}
+	}
+	if rd.Raw && len(rd.AltTypes) > 0 {
+		// no JSON entry: any one of the documented media types may be the one the raw body is sent as
+		for _, a := range rd.AltTypes {
+			if a == ct {
+				local := *rd
+				local.ContentType = a
+				rd = &local
+			}
+		}
+	}
 	if rd.ContentType != "" && ct != rd.ContentType {
 		bad("content-type", rd.ContentType, in, "Content-Type "+fmt.Sprintf("%q", ct), rd.ContentType)
 	}
